@@ -99,6 +99,7 @@ def tla_scn(scn: dict) -> dict:
         "cache": bool(s["cache"]),
         "maxloop": s["maxloop"],
         "debug": bool(s.get("debug")),
+        "info": bool(scn.get("info_requests")),  # the scripted simulators issue get_progress / get_related_entities (IR_* clauses)
         # real-time runs: K = trace ticks per simulation step (always 1024, see drive.Ctx), strict flag, instant = all step durations zero
         "rt": ({"on": True, "K": 1024, "strict": bool(s["rt"].get("strict")),
                 "instant": bool(s["rt"].get("instant"))} if s.get("rt") else {"on": False, "K": 0, "strict": False, "instant": False}),
